@@ -43,6 +43,10 @@ type SP struct {
 }
 
 type Arr [2]int
+
+type NCx complex64
+
+type NI8 int8
 `
 
 var reservedNames = []string{"f", "err", "v", "g", "in", "out", "this", "list", "success", "p", "m", "h"}
@@ -521,6 +525,10 @@ func JoinSliceItem(id, a string, str bool) FItem {
 	} else {
 		fmt.Fprintf(&body, "\t\tfor n := -1; n <= 5; n++ {\n\t\t\tfor variant := 0; variant < 4; variant++ {\n\t\t\t\tvar lol [][]%s\n\t\t\t\tif n >= 0 {\n\t\t\t\t\tlol = make([][]%s, n)\n\t\t\t\t}\n\t\t\t\tvar want []%s\n\t\t\t\tfor i := range lol {\n\t\t\t\t\tm := (i*3 + variant*2 + n) %% 4 // inner length 0..3, nil when variant says so\n\t\t\t\t\tif m == 0 && (variant+i)%%2 == 0 {\n\t\t\t\t\t\tcontinue // nil inner list\n\t\t\t\t\t}\n\t\t\t\t\tlol[i] = make([]%s, m, m+1)\n\t\t\t\t\tfor j := range lol[i] {\n\t\t\t\t\t\tlol[i][j] = mon.Arg[%s](t, i, j+variant)\n\t\t\t\t\t}\n\t\t\t\t\twant = append(want, lol[i]...)\n\t\t\t\t}\n\t\t\t\tbefore := mon.CanonOf(lol)\n\t\t\t\tcl := fmt.Sprintf(\"join-slice/outer%%d\", n)\n\t\t\t\tout := deriveJoin%s(lol)\n\t\t\t\tmon.Same(t, cl+\"/len\", len(out), len(want))\n\t\t\t\tfor i := 0; i < len(out) && i < len(want); i++ {\n\t\t\t\t\tmon.Same(t, cl+\"/element\", out[i], want[i])\n\t\t\t\t}\n\t\t\t\tif lol == nil {\n\t\t\t\t\tif out != nil {\n\t\t\t\t\t\tt.Bad(cl+\"/nil-for-nil\", \"join of a nil list of lists is not nil\")\n\t\t\t\t\t} else {\n\t\t\t\t\t\tt.Ok(cl + \"/nil-for-nil\")\n\t\t\t\t\t}\n\t\t\t\t}\n\t\t\t\tmon.Same(t, cl+\"/input-unmodified\", mon.CanonOf(lol), before)\n\t\t\t\tmon.NoteAlias(t, \"join-slice/result-aliases-an-input\", out, lol)\n\t\t\t}\n\t\t}\n", a, a, a, a, a, id)
 	}
+	if str {
+		// lists of empty strings only (the result has length 0 although the list has not)
+		fmt.Fprintf(&body, "\t\tfor n := 1; n <= 3; n++ {\n\t\t\tlist := make([]string, n)\n\t\t\tmon.Same(t, fmt.Sprintf(\"join-string/all-empty%%d\", n), deriveJoin%s(list), \"\")\n\t\t}\n", id)
+	}
 	if !str {
 		// inner lists that are windows of ONE buffer (with spare capacity behind it), joined out of buffer
 		// order, and a first list whose spare capacity could hold the whole result
@@ -607,7 +615,7 @@ func RenderFuncPackage(items []FItem) map[string]string {
 var FuncTypes = []string{"int", "string", "bool", "float64", "NInt", "NStr", "SV", "*SV", "[]int", "map[string]int", "Arr", "[2]int", "any", "SP", "*int", "[]string", "error"}
 
 // ComparableFuncTypes / NonComparable partition the alphabet for Mem.
-var ComparableFuncTypes = []string{"int", "string", "bool", "float64", "NInt", "NStr", "SV", "Arr", "[2]int"}
+var ComparableFuncTypes = []string{"int", "string", "bool", "float64", "NInt", "NStr", "SV", "Arr", "[2]int", "int8", "NI8", "uint8", "int16"}
 var NonComparableFuncTypes = []string{"[]int", "*SV", "map[string]int", "SP", "*int", "[]string", "[][]int", "[]SV"}
 
 // RandSig draws a signature.
@@ -677,4 +685,44 @@ func plain@ID(l []@T, seen map[string]bool) int64 {
 	shape := "mem-reentrant/[]" + elem
 	tags := []string{"kind:mem-reentrant", "param:[]" + elem}
 	return FItem{ID: id, Kind: "mem-reentrant", Shape: shape, Tags: tags, Src: src + reg(id, shape, tags, body)}
+}
+
+// MemMutateItem: the caller passes a slice (or pointer), overwrites its contents IN PLACE (same backing
+// array, same length) and passes it again: the memoized function must answer for the contents it is given.
+func MemMutateItem(id, typ string) FItem {
+	var sb strings.Builder
+	sb.WriteString(implDecl(id, []string{typ}, []string{"int", "NCx"}, false)) // NCx: in no other Mem signature
+	var mk, mut string
+	switch typ {
+	case "[]int":
+		mk, mut = "[]int{7, 8, 9}", "a[0], a[2] = 70+step, -step"
+	case "[]string":
+		mk, mut = "[]string{\"x\", \"y\"}", "a[1] = fmt.Sprint(\"y\", step)"
+	case "*SV":
+		mk, mut = "&SV{A: 1, B: \"b\"}", "a.A, a.B = 100+step, fmt.Sprint(\"b\", step)"
+	case "map[string]int":
+		mk, mut = "map[string]int{\"k\": 1, \"l\": 2}", "a[\"k\"] = 10 + step"
+	}
+	body := strings.NewReplacer("@ID", id, "@MK", mk, "@MUT", mut).Replace(`		m := deriveMem@ID(impl@ID)
+		a := @MK
+		for step := 0; step < 6; step++ {
+			r0, r1 := m(a)
+			t.Pause()
+			w0, w1 := impl@ID(a)
+			t.Resume()
+			mon.Same(t, "mem-mutated-argument/result0", r0, w0)
+			mon.Same(t, "mem-mutated-argument/result1", r1, w1)
+			if step%2 == 1 {
+				// the same contents again, without a change in between
+				r0, r1 = m(a)
+				mon.Same(t, "mem-mutated-argument/repeat0", r0, w0)
+				mon.Same(t, "mem-mutated-argument/repeat1", r1, w1)
+			}
+			@MUT
+		}
+`)
+	shape := "mem-mutated-argument/" + typ
+	tags := []string{"kind:mem-mutated-argument", "param:" + typ}
+	sb.WriteString(reg(id, shape, tags, body))
+	return FItem{ID: id, Kind: "mem-mutated-argument", Shape: shape, Tags: tags, Src: sb.String()}
 }
